@@ -4,7 +4,7 @@
 EXTENDS Gateway, Sequences, TLC, Json
 Canonical(x) ==
     LET d == Decide(x) IN
-    /\ x.path \notin {"call", "extra_seg"} =>
+    /\ x.path \notin CallPaths =>
           /\ x.name = "exact" /\ x.member = "method" /\ x.params = "none" /\ ~x.oneway /\ x.par = "absent"
           /\ x.pattern = "default" \/ x.path = "index"
     /\ x.path \in {"root", "pyro_noslash", "outside"} => x.keycfg = "none" /\ x.hdr = "absent"
@@ -14,8 +14,8 @@ Canonical(x) ==
     \* an attribute read cannot take parameters (with no key configured a $key parameter is an ordinary parameter)
     /\ x.member = "attribute" => x.params = "none" /\ (x.keycfg = "none" => x.par = "absent")
     /\ x.member = "method_slow" => x.params = "none" /\ x.name = "exact" /\ x.pattern = "default" /\ x.path = "call"
-    /\ (x.path \in {"call", "extra_seg"} /\ ~Registered(x.name)) => x.member \in {"method", "meta"} /\ x.params \in {"none", "one"}
-    /\ x.path = "extra_seg" => x.member = "method" /\ x.params \in {"none", "one"} /\ ~x.oneway
+    /\ (x.path \in CallPaths /\ ~Registered(x.name)) => x.member \in {"method", "meta"} /\ x.params \in {"none", "one"}
+    /\ x.path \in {"extra_seg", "lead_seg"} => x.member = "method" /\ x.params \in {"none", "one"} /\ ~x.oneway
 VARIABLE done
 GInit == done = FALSE /\ r = [meth |-> "GET", path |-> "call", name |-> "exact", member |-> "method", keycfg |-> "none",
                               hdr |-> "absent", par |-> "absent", pattern |-> "default", oneway |-> FALSE, params |-> "none"]
